@@ -30,7 +30,7 @@ MANIFEST = {
     "design_ref": "6 (C44)",
 }
 
-YCLASSES = ["gauss", "dip", "step", "line", "const", "zero", "noise", "two-peaks", "spike", "zero-sum", "tiny", "huge", "ints"]
+YCLASSES = ["gauss", "dip", "step", "line", "const", "zero", "noise", "two-peaks", "spike", "zero-sum", "zero-moment", "tiny", "huge", "ints"]
 
 
 def gen_cases(tier, seed):
@@ -74,6 +74,12 @@ def _make(rng, i):
         y = np.array([(-1.0) ** k for k in range(n)])
         if n % 2:
             y[-1] = 0.0
+    elif ycls == "zero-moment":
+        # zero total AND zero first moment about the sample index, not identically zero (c, -2c, c somewhere)
+        y = np.zeros(n)
+        if n >= 3:
+            a = rng.randrange(n - 2)
+            y[a:a + 3] = rng.choice([1.0, -3.0, 0.5]) * np.array([1.0, -2.0, 1.0])
     elif ycls == "tiny":
         y = 1e-300 * np.exp(-(t ** 2) / 0.1)
     elif ycls == "huge":
